@@ -10,7 +10,7 @@ def check(ctx):
     ctx.model("MC_ShardSearch", "MC_ShardSearch_ctl.cfg", expect_violation="Sound", coverage=False)
     ctx.model("MC_Shard", "MC_Shard.cfg", coverage=False)
     sh_common.record(ctx, "search", 1, need=("SsSearch",), **({"thorough": 1} if thorough else {}))
-    k = 6 if thorough else 1
+    k = 8 if thorough else 3
     for i in range(k):
         sh_common.record(ctx, "lookup", 16, seed_off=i,
                          need=("ShLookup:file:hit", "ShLookup:file:none", "ShLookup:xorb:hit", "ShLookup:xorb:none", "ShScan", "ShSizes"))
